@@ -28,6 +28,10 @@ pub enum Oracle {
     Eq,
     /// only: no content of an unreadable element appears
     Taint,
+    /// existence neutrality for the same Principal on the same Nexus: naming
+    /// an unreadable element (`probe`) answers exactly like naming an id that
+    /// was never written (checked only while `probe` is unreadable)
+    SameAsAbsent,
     /// DESCRIBE PRIMER: `contents` is withheld (documented) unless the reader's
     /// authority reaches the whole Space; the rest equals the owner's
     Primer,
@@ -45,10 +49,12 @@ pub struct Item {
     pub oracle: Oracle,
     /// the cursor is a Space sequence (CHANGES): compare presence only
     pub seq_cursor: bool,
+    /// the element a `SameAsAbsent` item names
+    pub probe: &'static str,
 }
 
 const fn it(label: &'static str, family: &'static str, template: &'static str, perms: &'static [&'static str], oracle: Oracle) -> Item {
-    Item { label, family, template, perms, oracle, seq_cursor: false }
+    Item { label, family, template, perms, oracle, seq_cursor: false, probe: "" }
 }
 
 const R: &[&str] = &["read"];
@@ -122,8 +128,15 @@ pub fn battery() -> Vec<Item> {
         it("export-props", "EXPORT", r#"EXPORT CAPSULE ?p WHERE { ?p PROPOSITION (?s, "prefers", ?o) }"#, X, Eq),
         it("export-root-readable", "EXPORT", r#"EXPORT CAPSULE "{Ann}" WHERE { ?x CONCEPT {id: "{Ann}"} }"#, X, Eq),
         it("export-root-hidden", "EXPORT", r#"EXPORT CAPSULE "{Cat}" WHERE { ?x CONCEPT {id: "{Ann}"} }"#, X, Eq),
-        it("preview-archive-hidden", "PREVIEW", r#"PREVIEW KML :cmd"#, R, Eq),
     ];
+    for (label, probe) in [
+        ("preview-archive-hidden", "Cat"),
+        ("preview-update-hidden", "Cat"),
+        ("preview-ensure-hidden-endpoint", "Cat"),
+        ("preview-archive-hidden-prop", "P2"),
+    ] {
+        v.push(Item { probe, ..it(label, "PREVIEW", r#"PREVIEW KML :cmd"#, R, SameAsAbsent) });
+    }
     let changes_page = Item { seq_cursor: true, ..it("changes-page", "CHANGES", r#"CHANGES AFTER SEQ 0 LIMIT 2"#, RH, Eq) };
     v.push(changes_page);
     v
@@ -156,6 +169,17 @@ fn params_for(item: &Item, built: &Built) -> Option<Map<String, Json>> {
     match item.label {
         "preview-archive-hidden" => {
             m.insert("cmd".into(), Json::String(render(r#"ARCHIVE "{Cat}""#, built)));
+        }
+        "preview-archive-hidden-prop" => {
+            m.insert("cmd".into(), Json::String(render(r#"ARCHIVE "{P2}""#, built)));
+        }
+        "preview-update-hidden" => {
+            m.insert("cmd".into(), Json::String(render(r#"UPDATE "{Cat}" SET ATTRIBUTES {rank: 9}"#, built)));
+        }
+        "preview-ensure-hidden-endpoint" => {
+            m.insert("cmd".into(), Json::String(r#"ENSURE PROPOSITION ?x (:s, "prefers", :o)"#.to_string()));
+            m.insert("s".into(), serde_json::json!({"id": render("{Ann}", built)}));
+            m.insert("o".into(), serde_json::json!({"id": render("{Cat}", built)}));
         }
         "tuple-fixed-hidden" => {
             m.insert("s".into(), serde_json::json!({"id": render("{Cat}", built)}));
@@ -246,10 +270,10 @@ pub async fn run(session: &Session, built: &Built, items: &[Item]) -> Vec<Canon>
 }
 
 /// Runs one item and also returns the raw response text (for replays).
-pub async fn run_one(session: &Session, built: &Built, item: &Item) -> (String, Canon, String) {
+pub async fn run_one(session: &Session, built: &Built, item: &Item, want_raw: bool) -> (String, Canon, String) {
     let command = render(item.template, built);
     let response = exec(session, &command, params_for(item, built)).await;
-    let raw = serde_json::to_string(&response).unwrap_or_default();
+    let raw = if want_raw { serde_json::to_string(&response).unwrap_or_default() } else { String::new() };
     (command, canon(&response, built, item), raw)
 }
 
@@ -268,6 +292,17 @@ pub fn taint_tokens(readable: &[bool], masked: &[bool]) -> Vec<(usize, String)> 
         }
     }
     out
+}
+
+/// The same Nexus, pretending `key` was never written (its id renders as a
+/// never-written one).
+pub fn without(built: &Built, key: &str) -> Built {
+    let mut b = built.clone();
+    if let Some(id) = b.id_of.remove(key) {
+        b.key_of.remove(&id);
+    }
+    b.tx_of.remove(key);
+    b
 }
 
 pub fn id_map_json(built: &Built) -> BTreeMap<String, String> {
